@@ -41,6 +41,16 @@ def call_name(call: ast.Call) -> typing.Optional[str]:
     return dotted(call.func)
 
 
+def call_tail(call: ast.Call) -> str:
+    """Last identifier of the callee expression (``super().m()`` -> 'm', ``a.b.c()`` -> 'c', ``f()`` -> 'f')."""
+    f = call.func
+    if isinstance(f, ast.Attribute):
+        return f.attr
+    if isinstance(f, ast.Name):
+        return f.id
+    return ''
+
+
 def src(node: typing.Optional[ast.AST]) -> str:
     """Normalised source text of a node (ast.unparse: insensitive to layout, quotes, parentheses)."""
     if node is None:
